@@ -111,9 +111,10 @@ pub(super) struct State {
     /// access to the cell.
     is_mutating: bool,
 
-    /// Last time the atomic was accessed. This tracks the dependent access for
-    /// the DPOR algorithm.
-    last_access: Option<Access>,
+    /// Last time each thread atomically loaded from the cell. Loads are
+    /// independent of one another, so a store or rmw has to be compared with
+    /// the most recent load of *every* thread by the DPOR algorithm.
+    last_load_access: [Option<Access>; MAX_THREADS],
 
     /// Last time the atomic was accessed for a store or rmw operation.
     last_non_load_access: Option<Access>,
@@ -414,7 +415,7 @@ impl State {
             unsync_mut_at: VersionVec::new(),
             unsync_mut_locations: LocationSet::new(),
             is_mutating: false,
-            last_access: None,
+            last_load_access: Default::default(),
             last_non_load_access: None,
             stores: Default::default(),
             cnt: 0,
@@ -828,21 +829,32 @@ impl State {
         one.iter_mut().chain(two.iter_mut())
     }
 
-    /// Returns the last dependent access
-    pub(super) fn last_dependent_access(&self, action: Action) -> Option<&Access> {
-        match action {
-            Action::Load => self.last_non_load_access.as_ref(),
-            _ => self.last_access.as_ref(),
-        }
-    }
-
-    /// Sets the last dependent access
-    pub(super) fn set_last_access(&mut self, action: Action, path_id: usize, version: &VersionVec) {
-        // Always set `last_access`
-        Access::set_or_create(&mut self.last_access, path_id, version);
+    /// Returns the last dependent accesses: a load depends on the last store
+    /// or rmw; a store or rmw depends on the last store or rmw and on the last
+    /// load of every thread.
+    pub(super) fn last_dependent_accesses(&self, action: Action) -> Vec<&Access> {
+        let mut ret: Vec<&Access> = self.last_non_load_access.iter().collect();
 
         match action {
             Action::Load => {}
+            _ => ret.extend(self.last_load_access.iter().flatten()),
+        }
+
+        ret
+    }
+
+    /// Sets the last dependent access
+    pub(super) fn set_last_access(
+        &mut self,
+        action: Action,
+        thread_id: usize,
+        path_id: usize,
+        version: &VersionVec,
+    ) {
+        match action {
+            Action::Load => {
+                Access::set_or_create(&mut self.last_load_access[thread_id], path_id, version);
+            }
             _ => {
                 // Stores / RMWs
                 Access::set_or_create(&mut self.last_non_load_access, path_id, version);
